@@ -105,7 +105,14 @@ def faulty(sp, rig="L", cas=True, op="append", kind="pre", style="ctx", double=F
         if double:
             k2 = sp.fresh_int("fault2_at", 0, 700)
             sp.assume(k2 > k)
-            st2 = fault_at(w, base + 1 + k2, mk, when=when)
+            if kind in ("ki", "se"):
+                # second fault after an asynchronous interrupt: a STORAGE error while the interrupted call unwinds (rollback, marker cleanup,
+                # lock release).  A second asynchronous interrupt landing inside the clean-up handler of the first is outside the claim: no
+                # Python code can protect every statement of its own `finally` blocks against that.
+                st2 = fault_at(w, base + 1 + k2, lambda l, i: (OSError(errno.EIO, "injected I/O error") if rig == "L" else cerr("AccessDenied", "Op", 403)),
+                               when=lambda l, i: not l.endswith("<"))
+            else:
+                st2 = fault_at(w, base + 1 + k2, mk, when=when)
         flips0 = len(pointer_flips(e))
         result = exc = None
         try:
